@@ -4,7 +4,7 @@ import z3
 
 from mirsym.api import Ob, Opaque, Agg, Ref, vname
 from mirsym.engine import State
-from mirsym.values import Tok, SeqV, MapV, StrV
+from mirsym.values import copy_val, Tok, SeqV, MapV, StrV
 from mirsym import models as M
 
 MEM = 'mdk-memory-storage'
@@ -63,7 +63,7 @@ def storage(st, caches, limits=None):
     inner = []
     for n in INNER_FIELDS:
         if n in caches:
-            inner.append(caches[n])
+            inner.append(copy_val(caches[n]))          # the store holds copies: the harness' own records stay the reference values, whichever path mutates the store
         elif n.startswith('mls_'):
             inner.append(Opaque(n, n))
         else:
